@@ -621,7 +621,7 @@ package hclwrite
 // litVal(b): the string the literal bytes b stand for after escape processing (uninterpreted; it is
 // whatever ParseStringLiteralToken returns).
 // verif:specfunc litVal(b []byte) string
-// verif:pred hasErr(d hcl.Diagnostics) = exists j int :: 0 <= j && j < len(d) && d[j].Severity == 1
+// (hasErr and the contract of Diagnostics.HasErrors are in the root package contract file.)
 // verif:pred QuotedWF(ts Tokens) = len(ts) >= 2 && (forall i int :: { ts[i] } 0 <= i && i < len(ts) ==> ts[i] != nil) && ts[0].Type == hclsyntax.TokenOQuote && ts[len(ts) - 1].Type == hclsyntax.TokenCQuote && (forall i int :: { ts[i] } 1 <= i && i < len(ts) - 1 ==> ts[i].Type == hclsyntax.TokenQuotedLit && litOK(ts[i].Bytes))
 // verif:pred LabelNodeWF(k *node) = k != nil && ((typeis(k.content, ptr(identifier)) && unbox(k.content, ptr(identifier)) != nil && unbox(k.content, ptr(identifier)).token != nil && unbox(k.content, ptr(identifier)).token.Type == hclsyntax.TokenIdent) || (typeis(k.content, ptr(quoted)) && unbox(k.content, ptr(quoted)) != nil && QuotedWF(unbox(k.content, ptr(quoted)).tokens)))
 
@@ -634,10 +634,6 @@ package hclwrite
 //@ ensures members: forall i int :: { ret[i] } 0 <= i && i < len(ret) ==> has(ns, ret[i])
 //@ ensures listed == len(ret)
 //@ loop 1 invariant len(ret) >= 0 && (forall i int :: { ret[i] } 0 <= i && i < len(ret) ==> has(ns, ret[i]))
-
-// verif:extfunc github.com/hashicorp/hcl/v2.(Diagnostics).HasErrors
-//@ pure
-//@ ensures ret == hasErr(d)
 
 // The escape decoder itself is not under contract here: litOK is defined as "it reports no error".
 // verif:extfunc github.com/hashicorp/hcl/v2/hclsyntax.ParseStringLiteralToken
